@@ -4,7 +4,7 @@
    exactly 256, booleans, strings, binaries), any property names and counts, any encoding per
    column, per property and per slice.  The readers return exactly the encoded content, whatever
    follows, and the session reports end-of-table exactly at the end marker.  Statements only. *)
-From Sbdf Require Import File PrimFacts SevenBit ObjFacts VaFacts SliceFacts FileFacts.
+From Sbdf Require Import File PrimFacts SevenBit ObjFacts VaFacts SliceFacts MdFacts TmFacts FileFacts.
 
 Theorem C04_value_array : forall swp v tail, wf_va v -> byte_ok (vty v) -> va_read swp None (enc_va swp v ++ tail) = Ok (v, tail).
 Proof. intros swp v tail W B. destruct (rspec_va swp v W B) as [E _]. apply E. Qed.
@@ -19,6 +19,16 @@ Theorem C04_slices_until_end_marker : forall swp sls ncols fuel tail,
   read_slices swp None fuel ncols None (enc_slices swp sls ++ tail) = (map owned_ts sls, SBDF_TABLEEND, enc_end ++ tail).
 Proof. exact read_slices_exact. Qed.
 Print Assumptions C04_slices_until_end_marker.
+
+(* the table-metadata section for ANY name list that covers the columns (any order, unused names,
+   defaults present or absent), not only the one this library's writer would choose *)
+Theorem C04_table_metadata_any_name_list : forall swp t names tail, tm_ok t ->
+  (forall n, In n names -> tentry_ok n) -> zlen names < 2147483648 ->
+  (forall c, In c (tcols t) -> names_ok names c) ->
+  tm_read swp None (enc_tm swp t names ++ tail)
+  = Ok ({| tmeta := {| ments := ments (tmeta t); mmod := false |}; tcols := map (norm names) (tcols t) |}, tail).
+Proof. exact tm_read_exact. Qed.
+Print Assumptions C04_table_metadata_any_name_list.
 
 (* decoding what was read gives the logical values: a run-length array with arbitrary (valid)
    runs decodes to the expansion of its runs *)
